@@ -1,5 +1,5 @@
 """C03 Decoding does not depend on how the input is delivered - structural clauses."""
-from .. import frontend as F, ast as A, cfg as C, util as U
+from .. import frontend as F, ast as A, cfg as C, util as U, guards as G
 
 EXPLANATION = ('Decides structural necessary conditions of chunking-independence: (R03.1) every suspend point of the '
                'incremental JSON number/string sub-automata stores the state whose dispatch entry jumps back to the label that '
@@ -413,6 +413,48 @@ def r03_9(chk, tier):
                          'advanced at line %s: it points into the parser buffer of an event that is gone' % (fn['n'], d.get('n'), d.get('l'), bad[1].line, bad[0].line), None, fn['q'])
     chk.require(n >= 4, 'R03.9: only %d event views found' % n)
 
+def r03_10(chk, facts):
+    """The pull cursor reports what the push parser reports."""
+    chk.rule('R03.10', 'cursor construction does not discard errors: in json_cursor.hpp, when the first read_next() leaves an error in a local '
+                       'error_code, every path from the test of that local to the end of the constructor / initialiser hands it on '
+                       '(`ec = local_ec`, a throw) - except under a test that the parser has consumed nothing (`parser_.enter()`, white space '
+                       'only); a truncated top-level scalar (`"abc`, `12.`, `tru`) is an unexpected_eof for the reader and must be one for '
+                       'the cursor', floor=4)
+    n = 0; seen = set()
+    for fn in sorted(facts.functions, key=lambda f: bool(f.get('dep'))):
+        if fn.get('body') is None or not fn['file'].endswith('json_cursor.hpp') or (fn['file'], fn['l']) in seen: continue
+        locs = [d for d in A.walk_no_lambda(fn['body']) if d.get('k') == 'VarDecl' and d.get('t') and 'error_code' in fn['_types'][d['t'] - 1]]
+        if not locs: continue
+        seen.add((fn['file'], fn['l']))
+        g = C.CFG(fn['body'])
+        for d in locs:
+            tests = [nd for nd in g.rpo if nd.kind == 'cond' and isinstance(nd.ast, dict) and G.comparison(nd.ast) is None and
+                     any(y.get('k') == 'DeclRefExpr' and y.get('id') == d['id'] for y in A.walk(nd.ast)) and
+                     not any(y.get('k') in A.CALLS and A.callee_name(y) not in ('operator bool', '__builtin_expect') for y in A.walk(nd.ast))]
+            for t in tests:
+                te = [e for e in t.succ if e.kind == 'edge' and e.label is True]
+                if not te: continue
+                n += 1
+                chk.analysed(fn)
+                hand = []
+                for nd in g.rpo:
+                    if nd.kind == 'stmt' and isinstance(nd.ast, dict):
+                        am = U.assigned_member(nd.ast)
+                        x = A.strip(nd.ast, casts=True)
+                        rhs_is_local = any(y.get('k') == 'DeclRefExpr' and y.get('id') == d['id'] for y in A.walk(x)) and \
+                                       (x.get('k') in ('BinaryOperator', 'CXXOperatorCallExpr')) and (x.get('op') == '=' or x.get('oop') == '=')
+                        if rhs_is_local and not (am and am[0] == d.get('n')): hand.append(nd)
+                        if any(s2 is g.exit_throw for s2 in nd.succ) and any(y.get('k') == 'DeclRefExpr' and y.get('id') == d['id'] for y in A.walk(nd.ast)): hand.append(nd)
+                    # "nothing consumed": true outcome of a condition that calls enter() on the parser
+                    if nd.kind == 'edge' and nd.label is True and isinstance(nd.ast, dict) and any(A.callee_name(c) == 'enter' for c in A.calls_in(nd.ast)): hand.append(nd)
+                site = U.site(fn, 'error in %s after the first read (line %s)' % (d.get('n'), t.line))
+                leak = g.can_reach(te[0], [g.exit_return], avoid=hand)
+                if not leak: chk.ok('R03.10', site, None)
+                else:
+                    chk.fail('R03.10', site, fn['file'], t.line, '%s: a path from `if (%s)` reaches the end without handing the error on (and without having established that nothing '
+                             'was consumed): the cursor reports a truncated document as complete' % (fn['n'], d.get('n')), None, fn['q'])
+    chk.require(n >= 4, 'R03.10: only %d tested local error codes found in json_cursor.hpp' % n)
+
 def run(chk, tier, only_rule=None):
     chk.explanation = EXPLANATION
     chk.not_decided = NOT_DECIDED
@@ -424,6 +466,7 @@ def run(chk, tier, only_rule=None):
     r03_7(chk, tier)
     r03_8(chk, tier)
     r03_9(chk, tier)
+    r03_10(chk, facts)
     from . import c02
     c02.r02_8(chk, facts)      # the first-chunk examination must not recur at later chunk boundaries
     from . import c05
